@@ -272,6 +272,60 @@ func (m *VM) applyMut(data, donor []byte, mu Mut) ([]byte, bool) {
 			return nil, false
 		}
 		env.NextSecret, env.FinalSignature = atk.Priv.Seed(), nil
+	case "proof_crafted":
+		// proofs a key-less party can assemble from public parts of the token
+		last := all[n-1]
+		rnd := seedFrom(last.Signature[:min(32, len(last.Signature))], byte(mu.Val))
+		switch abs(mu.Val) % 8 {
+		case 0: // the announced public key offered as the secret
+			env.NextSecret, env.FinalSignature = append([]byte{}, last.Key...), nil
+		case 1: // 64 bytes "expanded key": arbitrary seed half, announced key as public half
+			env.NextSecret, env.FinalSignature = append(append([]byte{}, rnd...), last.Key...), nil
+		case 2:
+			env.NextSecret, env.FinalSignature = append(append([]byte{}, last.Key...), last.Key...), nil
+		case 3: // the last block's own signature offered as the seal
+			env.FinalSignature, env.NextSecret = append([]byte{}, last.Signature...), nil
+		case 4: // another block's signature offered as the seal
+			env.FinalSignature, env.NextSecret = append([]byte{}, all[i].Signature...), nil
+		case 5: // both proofs present: last one on the wire wins; first the attacker's, then garbage
+			env.NextSecret, env.FinalSignature = rnd, nil
+		case 6: // empty secret / empty seal
+			env.NextSecret, env.FinalSignature = []byte{}, nil
+		default:
+			env.FinalSignature, env.NextSecret = []byte{}, nil
+		}
+	case "forge_tail":
+		// replace the last block by attacker content announcing an attacker key and close the
+		// token with that key (seal if it was sealed, secret otherwise); optionally after truncation
+		if atk == nil {
+			return nil, false
+		}
+		if mu.J%2 == 1 && n > 1 {
+			k := 1 + abs(mu.I)%(n-1)
+			all = all[:n-k]
+			n = len(all)
+		}
+		blk, _ := hex.DecodeString(mu.Data)
+		nxt := ed25519.NewKeyFromSeed(seedFrom(atk.Priv.Seed(), byte(mu.Val)))
+		sb := &ref.WSignedBlock{Block: blk, Alg: 0, Key: nxt.Public().(ed25519.PublicKey)}
+		switch abs(mu.Val) % 3 {
+		case 0:
+			sb.Signature = ed25519.Sign(atk.Priv, ref.SignedPayload(sb))
+		case 1:
+			sb.Signature = make([]byte, 64)
+		default:
+			sb.Signature = append([]byte{}, all[n-1].Signature...)
+		}
+		if n == 1 {
+			return nil, false // never replace the authority block here (that is replace_attacker)
+		}
+		all[n-1] = sb
+		setAll(all)
+		if env.FinalSignature != nil {
+			env.FinalSignature = ed25519.Sign(nxt, ref.SealPayload(sb))
+		} else {
+			env.NextSecret = nxt.Seed()
+		}
 	case "seal_captured":
 		// legitimate: whoever sees an unsealed token can seal it
 		if len(env.NextSecret) != 32 {
@@ -280,7 +334,7 @@ func (m *VM) applyMut(data, donor []byte, mu Mut) ([]byte, bool) {
 		sk := ed25519.NewKeyFromSeed(env.NextSecret)
 		env.FinalSignature, env.NextSecret = ed25519.Sign(sk, ref.SealPayload(all[n-1])), nil
 	case "seal_sig_flip":
-		if env.FinalSignature == nil {
+		if len(env.FinalSignature) == 0 {
 			return nil, false
 		}
 		p := abs(mu.Pos) % (len(env.FinalSignature) * 8)
